@@ -84,7 +84,7 @@ def run_one(args):
     try:
         lines, info = prov.run_ticks(role, ticks)
     except Exception as e:  # pylint: disable=broad-except
-        return ('harness', '%r' % (e,), None, None)
+        return ('harness', common.describe_exc(e), None, None)
     orc = prov.oracle(role, ticks, info)
     return (None, orc, lines, [i['after'] for i in info])
 
@@ -133,7 +133,7 @@ def run(chk):
     for (role, name, ticks), m, (err, orc, lines, states) in zip(hs, model, results):
         ticks = list(ticks)
         if err:
-            raise common.Infra('harness error on %s %r: %s' % (role, ticks, orc))
+            common.raise_for('%s [history %s %r]' % (orc, role, ticks[:30]))
         chk.case(role + ';'.join(ticks), len(set(states)) > 1,
                  {'role': role, 'base': name, 'ticks': ticks[:12], 'states': states[:12]} if name != 'start' or len(chk.samples) < 3 else None)
         chk.count('base:%s:%s' % (role, name))
